@@ -379,7 +379,8 @@ func (wr *worldRunner) runCase(prop string, p profile, r *rng.R, stats map[strin
 				if kind := oddWire(r, &pkt); pkt.WireAgrees() {
 					info.shape += "/" + kind
 					if kind == "wire-missing-sender" {
-						info.expectOK = false // the ICS-20 application refuses a packet without a sender
+						// the ICS-20 application refuses a packet without a sender
+						info.expectOK, info.swapRouteOK = false, false
 					}
 					if pkt.ICS == nil {
 						info = pktInfo{shape: "raw-data/" + kind}
